@@ -171,7 +171,16 @@ pub struct GlobCase {
 
 pub struct Pathname;
 
-const NAMES: &[&str] = &["a", "b", "ab", "A", ".a", ".ab", "a b", "d/", "d/a", "d/.a", "e/", "e/b", "[x]", "a.txt", "b.txt", "-n"];
+const NAMES: &[&str] = &[
+    "a", "b", "ab", "A", ".a", ".ab", "a b", "d/", "d/a", "d/.a", "e/", "e/b", "[x]", "a.txt", "b.txt", "-n", ".d/", ".d/a", ".d/.a", ".d/.hc", "d/e/", "d/e/c", "d/e/.c", ".d/e/",
+    ".d/e/.c", ".d/e/c", "e/.f/", "e/.f/.g", "e/.f/g",
+];
+/// path components that are joined with `/` into multi-component patterns: what one component
+/// decides (leading dot, a literal, a class) must not leak into the next one
+const G_COMPONENTS: &[&str] = &[
+    "*", ".*", "?", "??", ".?", ".d*", ".[a-z]*", "d", ".d", "d*", "[!a]*", "[d.]*", "*a", "e", "e*", "?c", ".c*", "*c", "a*", ".", "\\.d", "'.d'", "\".\"*", ".f", ".f*", "?f", "[.]*", "*g",
+    "?h*", ".h*", "@(.d|d)", "@(.|)d", "*(.)*", "**",
+];
 const G_PATTERNS: &[&str] = &[
     "*", ".*", "a*", "?", "??", "[ab]", "[!a]*", "*/", "*/*", "d/*", "d/.*", "*/.*", "[A-Z]*", "*.txt", "\\*", "a\\ b", "\"a b\"", "'*'", "*b", "a?", "nomatch*", "[x]", "\\[x\\]", "@(a|b)", "!(a)", "*(a|b)",
     "+(?)", "d*/a", "./*", "./.*", "*' '*", "-*", "[[:upper:]]", "[[:lower:]]*", "{a,b}*", "~nonexistentuser*",
@@ -193,6 +202,12 @@ impl Layer for Pathname {
         }
         if c.opts.iter().any(|o| o == "nocaseglob") && c.patterns.iter().any(|p| p.contains("[:upper:]") || p.contains("[:lower:]")) {
             v.push("nocase_with_case_class".to_string());
+        }
+        if c.opts.iter().any(|o| o == "globstar") && c.patterns.iter().any(|p| p.split('/').any(|x| x == "**")) {
+            v.push("globstar_doublestar_component".to_string());
+        }
+        if c.patterns.iter().any(|p| p.split('/').any(|x| ["@(", "*(", "+(", "?("].iter().any(|g| x.starts_with(g)) && (x.contains("(.") || x.contains("|.")))) {
+            v.push("extglob_alternative_leading_dot".to_string());
         }
         v
     }
@@ -235,6 +250,15 @@ impl Layer for Pathname {
         if c.files.iter().any(|f| f.starts_with('.') || f.contains("/.")) {
             labels.push("dotfiles-present".into());
         }
+        if c.files.iter().any(|f| f.starts_with(".d/.") || f.starts_with(".d/e/.") || f.starts_with("e/.f/.")) {
+            labels.push("dotfile-under-dot-directory".into());
+        }
+        if c.patterns.iter().any(|p| {
+            let comps: Vec<&str> = p.split('/').filter(|x| !x.is_empty()).collect();
+            comps.len() >= 2 && comps[..comps.len() - 1].iter().any(|x| x.starts_with('.') && x.contains(['*', '?', '['])) && !comps[comps.len() - 1].starts_with('.')
+        }) {
+            labels.push("dotted-glob-component-then-undotted".into());
+        }
         Verdict { outcome, labels, nontrivial: !c.files.is_empty(), sample: Some(pair_sample(&pair.bash, &pair.brush)), weight: c.patterns.len() as u64 }
     }
 }
@@ -242,22 +266,37 @@ impl Layer for Pathname {
 fn glob_cases() -> BoxedStrategy<GlobCase> {
     (
         proptest::sample::subsequence(NAMES.to_vec(), 0..=NAMES.len()),
-        proptest::collection::vec(proptest::sample::select(G_PATTERNS.to_vec()), 4..=8),
+        proptest::collection::vec(proptest::sample::select(G_PATTERNS.to_vec()), 3..=6),
+        proptest::collection::vec((proptest::collection::vec(proptest::sample::select(G_COMPONENTS.to_vec()), 2..=3), 0u8..6), 2..=5),
         proptest::sample::subsequence(G_OPTS.to_vec(), 0..=3),
     )
-        .prop_map(|(files, patterns, opts)| {
-            // directories first so that "d/a" can be created
+        .prop_map(|(files, patterns, composed, opts)| {
+            // every ancestor directory of a chosen name exists (sorted: parents are created first)
             let mut files: Vec<String> = files.into_iter().map(String::from).collect();
-            for d in ["d/", "e/"] {
-                let pre = d.to_string();
-                if files.iter().any(|f| f.starts_with(&pre) && f != &pre) && !files.contains(&pre) {
-                    files.push(pre);
+            for f in files.clone() {
+                let mut pre = String::new();
+                let parts: Vec<&str> = f.trim_end_matches('/').split('/').collect();
+                for part in &parts[..parts.len() - 1] {
+                    pre.push_str(part);
+                    pre.push('/');
+                    if !files.contains(&pre) {
+                        files.push(pre.clone());
+                    }
                 }
             }
             files.sort();
+            files.dedup();
             let ext = opts.contains(&"extglob");
+            let mut patterns: Vec<String> = patterns.into_iter().map(String::from).collect();
+            for (comps, tail) in composed {
+                let mut p = comps.join("/");
+                if tail == 0 {
+                    p.push('/');
+                }
+                patterns.push(p);
+            }
             // with extglob off, `@(a|b)` as a bare word is a syntax error in bash: outside the domain
-            let patterns: Vec<String> = patterns.into_iter().filter(|p| ext || !p.contains('(')).map(String::from).collect();
+            let patterns: Vec<String> = patterns.into_iter().filter(|p| ext || !p.contains('(')).collect();
             GlobCase { files, patterns, opts: opts.into_iter().map(String::from).collect() }
         })
         .boxed()
